@@ -1,0 +1,43 @@
+//go:build verif
+
+package fsm
+
+import "github.com/canopy-network/canopy/lib"
+
+// Verification hooks (build tag `verif` only; add-only, no production code path uses them).
+// The ledger correspondence harness (C04/C12) drives the real handlers of a StateMachine block by
+// block without a controller; the fields it needs to set for that are unexported.
+
+// VerifNewStateMachine builds a StateMachine on the given store exactly like the package's own
+// test helper does (no genesis file, no plugin, no metrics), at the given height.
+func VerifNewStateMachine(c lib.Config, store lib.StoreI, height uint64, log lib.LoggerI) *StateMachine {
+	return &StateMachine{
+		store:             store,
+		ProtocolVersion:   CurrentProtocolVersion,
+		NetworkID:         uint32(c.P2PConfig.NetworkID),
+		height:            height,
+		slashTracker:      NewSlashTracker(),
+		proposeVoteConfig: AcceptAllProposals,
+		Config:            c,
+		events:            new(lib.EventsTracker),
+		log:               log,
+		cache: &cache{
+			accounts:    make(map[uint64]*Account),
+			pools:       make(map[uint64]*Pool),
+			sharedCache: newValidatorSharedCache(),
+		},
+	}
+}
+
+// (the height setter VerifSetHeight lives in verif_hooks_height.go)
+
+// VerifSlashTracker returns a deep copy of the per-block slash tracker.
+func (s *StateMachine) VerifSlashTracker() *SlashTracker { return s.slashTracker.Clone() }
+
+// VerifSetSlashTracker replaces the per-block slash tracker (nil = fresh, as at a block boundary).
+func (s *StateMachine) VerifSetSlashTracker(t *SlashTracker) {
+	if t == nil {
+		t = NewSlashTracker()
+	}
+	s.slashTracker = t
+}
